@@ -414,6 +414,9 @@ theorem gedcom_no_panic : ∀ v, fmtGedcom goodFlags v ≠ .panic
   | .node _ _ => by simp [fmtGedcom, Val.nonNillable, Val.isNilLike]
   | .nilNode _ => by simp [fmtGedcom, Val.nonNillable, Val.isNilLike]
   | .tag _ => by simp [fmtGedcom, Val.nonNillable, goodFlags]
+  | .raw _ _ => by simp [fmtGedcom, Val.nonNillable, Val.isNilLike]
+  | .date _ _ => by simp [fmtGedcom, Val.nonNillable, goodFlags]
+  | .named _ _ => by simp [fmtGedcom, Val.nonNillable, goodFlags]
   | .map _ => by simp [fmtGedcom, Val.nonNillable, Val.isNilLike]
 theorem gedcomList_no_panic : ∀ vs, fmtGedcomList goodFlags vs ≠ .panic
   | [] => by simp [fmtGedcomList]
@@ -441,6 +444,9 @@ theorem html_no_panic : ∀ v, fmtHtml goodFlags v ≠ .panic
   | .node _ _ => by simp [fmtHtml, Val.nonNillable]
   | .nilNode _ => by simp [fmtHtml, Val.nonNillable]
   | .tag _ => by simp [fmtHtml, Val.nonNillable, goodFlags]
+  | .raw _ _ => by simp [fmtHtml, Val.nonNillable]
+  | .date _ _ => by simp [fmtHtml, Val.nonNillable, goodFlags]
+  | .named _ _ => by simp [fmtHtml, Val.nonNillable, goodFlags]
   | .map _ => by simp [fmtHtml, Val.nonNillable]
 theorem htmlList_no_panic : ∀ vs, fmtHtmlList goodFlags vs ≠ .panic
   | [] => by simp [fmtHtmlList]
